@@ -64,7 +64,25 @@ fn gen_lookup_program(rng: &mut ChaCha8Rng, lu_slots: usize, lut_slots: usize) -
         }
         .min(pool.len());
         let outs_few = rng.gen_bool(0.5);
-        let table: Vec<(u16, u16)> = pool.iter().take(len).map(|&i| (i, if outs_few { rng.gen_range(0..3) + (t as u16) * 7 } else { rng.gen() })).collect();
+        let mut table: Vec<(u16, u16)> = pool.iter().take(len).map(|&i| (i, if outs_few { rng.gen_range(0..3) + (t as u16) * 7 } else { rng.gen() })).collect();
+        // nested tables: a proper prefix of an earlier table, or an earlier table followed by more
+        // entries (the two declaration orders of "one table is the beginning of another")
+        let mut past_prefix: Option<usize> = None;
+        if t >= 1 && rng.gen_range(0..3) == 0 {
+            let t0 = rng.gen_range(0..t);
+            let base = tables[t0].clone();
+            if rng.gen_bool(0.5) && base.len() >= 2 {
+                table = base[..rng.gen_range(1..base.len())].to_vec();
+            } else if base.len() < pool.len() {
+                let extra = rng.gen_range(1..=(pool.len() - base.len()).min(lut_slots + 2));
+                table = base.clone();
+                for &i in pool.iter().skip(base.len()).take(extra) {
+                    table.push((i, rng.gen()));
+                }
+                past_prefix = Some(base.len());
+            }
+        }
+        let len = table.len();
         let n_lookups = match rng.gen_range(0..7) {
             0 => 1,
             1 => lu_slots - 1,
@@ -78,6 +96,7 @@ fn gen_lookup_program(rng: &mut ChaCha8Rng, lu_slots: usize, lut_slots: usize) -
         let free = rng.gen_bool(0.4);
         for k in 0..n_lookups {
             let (inp, _) = match style {
+                _ if k == 0 && past_prefix.is_some() => table[past_prefix.unwrap() + rng.gen_range(0..table.len() - past_prefix.unwrap())],
                 0 => table[0],                        // heavy repetition of one entry
                 1 => table[k % table.len().min(3)],    // a few entries, the rest unused
                 _ => table[rng.gen_range(0..table.len())],
@@ -94,7 +113,7 @@ fn gen_lookup_program(rng: &mut ChaCha8Rng, lu_slots: usize, lut_slots: usize) -
             reg += 1;
             ops.push(Op::Public(reg - 1));
         }
-        shapes.push(json!({"table_len": len, "lookups": n_lookups, "style": style, "free_inputs": free}));
+        shapes.push(json!({"table_len": len, "lookups": n_lookups, "style": style, "free_inputs": free, "extends_an_earlier_table": past_prefix.is_some()}));
         tables.push(table);
     }
     (Program { ops, tables, n_inputs }, inputs, json!({"tables": shapes, "lu_slots_per_row": lu_slots, "lut_slots_per_row": lut_slots}))
@@ -310,7 +329,7 @@ pub fn case<C: GenericConfig<D, F = F>>(seed: u64, case: u64, quick: bool, hname
 
 pub fn run(tier: Tier) -> ! {
     let mut run = Run::new("C08", "fault_enumeration", tier);
-    run.rule("circuits with 1-4 lookup tables (inputs pairwise distinct within a table; tables share inputs but map them to different outputs; sizes 1, slots-1, slots, slots+1, 2*slots, 3*slots and in between; outputs with duplicates) and designed lookup multisets (1, slots-1, slots, slots+1, 2*slots lookups; one entry repeated, a few entries with the rest unused, uniform), constant and free inputs, 60/80/100 routed wires, zk, 3 challenges; Poseidon and Keccak. Positive: prove+verify accept and every lookup output equals the table value. Negative through the real prover (hook H3): looked-up output changed in its whole copy class, the same input's output in a different table, looking input/output cells changed in the final wire matrix (incl. padded slots), multiplicity +-1, table row cell changed, free input outside the table through prove(). Oracle: sat.rs lookup predicate (table rows equal the declared padded table; multiset of looking pairs equals multiplicities) + gates + copy classes; benign edits must still verify.");
+    run.rule("circuits with 1-4 lookup tables (inputs pairwise distinct within a table; tables share inputs but map them to different outputs; every third extra table is a proper prefix or an extension of an earlier table; sizes 1, slots-1, slots, slots+1, 2*slots, 3*slots and in between; outputs with duplicates) and designed lookup multisets (1, slots-1, slots, slots+1, 2*slots lookups; one entry repeated, a few entries with the rest unused, uniform), constant and free inputs, 60/80/100 routed wires, zk, 3 challenges; Poseidon and Keccak. Positive: prove+verify accept and every lookup output equals the table value. Negative through the real prover (hook H3): looked-up output changed in its whole copy class, the same input's output in a different table, looking input/output cells changed in the final wire matrix (incl. padded slots), multiplicity +-1, table row cell changed, free input outside the table through prove(). Oracle: sat.rs lookup predicate (table rows equal the declared padded table; multiset of looking pairs equals multiplicities) + gates + copy classes; benign edits must still verify.");
     run.assume("tables with a repeated input are outside the property (the table's value for that input is not defined) and are not generated");
     run.assume("satisfaction oracle (sat.rs) classifies edited wire matrices");
     let quick = run.quick();
@@ -333,5 +352,7 @@ pub fn run(tier: Tier) -> ! {
         }
         run.set_extra("matrix_strategy_site_outcome", json!(matrix));
     }
+    run.count("rejected_proofs_also_presented_to_verifier_data_and_compressed_paths", crate::props::c02::ALT_PATH_CHECKS.load(std::sync::atomic::Ordering::Relaxed));
+    run.count("accepted_only_by_an_alternative_path", crate::props::c02::ALT_PATH_ACCEPTS.load(std::sync::atomic::Ordering::Relaxed));
     run.finish()
 }
